@@ -66,12 +66,12 @@ theorem Bucket.bump_lt : ∀ (a b : Bucket) (i : Nat), a.length = b.length →
 theorem rhyp_bucket (E : Env U Bucket) (rank : UNT U → Nat) (size : Nat) (hops : E.ops = bucketOps size false)
     (hk : E.kway = true) (c1 : rowsB E.G = true) (c2 : arityB E.G = true) (c3 : acyclicB E.G rank = true)
     (c4 : budetB E.G = true) (c5 : altKeysB E.G = true) (c6 : flatB E.G = true) (c7 : leafOneB E.G = true)
-    (c9 : (E.G.starts.map (·.1)).Nodup) (hf : ∀ p, E.filter p = true) :
+    (c9 : (E.G.starts.map (·.1)).Nodup) :
     RHyp E rank (fun b : Bucket => b.length = size) := by
   have hdet := budet_of_check E c4
   refine ⟨⟨GHyp.of_checks E c1 c2 hk, acyclic_of_check E rank c3, ?_, by rw [hops]; rfl,
     ualt_of_budet E hdet (altKeys_of_check E c5), flat_of_check E c6, leafOne_of_check E c7, ?_, ?_, ?_, ?_⟩,
-    sdisj_of_budet E hdet, c9, hf, ?_, ?_⟩
+    sdisj_of_budet E hdet, c9, ?_, ?_⟩
   · rw [hops]; exact bucket_weakOn size
   · intro nt F v w _; rw [hops]; exact Bucket.ofProb_length size w
   · intro a b ha hb; rw [hops]; exact Bucket.add_length a b size ha hb
